@@ -73,6 +73,7 @@ INJECT = {
     'SX_not_in': _sx_not_in,
     'SX_ite': _sx_ite,
     'SX_join': _sx_join,
+    'SX_dict': seqs.SymDict,
 }
 
 
@@ -81,8 +82,10 @@ INJECT = {
 
 class _Rewriter(ast.NodeTransformer):
 
-    def __init__(self, ifconvert=()):
+    def __init__(self, ifconvert=(), symdict=False):
         self.ifconvert = set(ifconvert)
+        # rewrite dict displays {k: v, ...} into association lists with symbolic key equality
+        self.symdict = symdict
         self.func_stack = []
         self.counter = 0
         self.converted = []
@@ -115,6 +118,14 @@ class _Rewriter(ast.NodeTransformer):
                 func=ast.Name(id='SX_join', ctx=ast.Load()),
                 args=[node.func.value, node.args[0]], keywords=[]), node)
         return node
+
+    def visit_Dict(self, node):
+        self.generic_visit(node)
+        if not self.symdict or any(k is None for k in node.keys):
+            return node
+        pairs = ast.List(elts=[ast.Tuple(elts=[k, v], ctx=ast.Load()) for k, v in zip(node.keys, node.values)],
+                         ctx=ast.Load())
+        return ast.copy_location(ast.Call(func=ast.Name(id='SX_dict', ctx=ast.Load()), args=[pairs], keywords=[]), node)
 
     def visit_AugAssign(self, node):
         self.generic_visit(node)
@@ -243,6 +254,7 @@ class Config(object):
         self.nolift = []
         self.ifconvert = {}      # relative module name -> [function names]
         self.extra_globals = {}  # relative module name -> {name: object}
+        self.symdict = []        # relative module names whose dict displays become SymDict
         self.report = {}         # what was rewritten (for evidence)
 
     def is_lifted(self, rel):
@@ -274,7 +286,9 @@ class _Loader(importlib.machinery.SourceFileLoader):
         rel = self.fullname[len(LIFTED) + 1:]
         tree = ast.parse(src, self.path)
         if CONFIG.is_lifted(rel):
-            rw = _Rewriter(CONFIG.ifconvert.get(rel, ()))
+            rw = _Rewriter(CONFIG.ifconvert.get(rel, ()), rel in CONFIG.symdict)
+            if rel in CONFIG.symdict:
+                CONFIG.report.setdefault('symdict_modules', []).append(rel)
             tree = rw.visit(tree)
             ast.fix_missing_locations(tree)
             module.__dict__.update(INJECT)
